@@ -1,0 +1,51 @@
+/*
+ * Copyright 2019 the go-netty project
+ *
+ * Licensed under the Apache License, Version 2.0 (the "License");
+ * you may not use this file except in compliance with the License.
+ * You may obtain a copy of the License at
+ *
+ *      https://www.apache.org/licenses/LICENSE-2.0
+ *
+ * Unless required by applicable law or agreed to in writing, software
+ * distributed under the License is distributed on an "AS IS" BASIS,
+ * WITHOUT WARRANTIES OR CONDITIONS OF ANY KIND, either express or implied.
+ * See the License for the specific language governing permissions and
+ * limitations under the License.
+ */
+
+package frame
+
+import "io"
+
+// exactReader returns a Reader that reads exactly n bytes from r.
+//
+// Unlike io.LimitReader it does not report a clean io.EOF when the underlying stream ends early:
+// a frame whose declared length was not received completely fails with io.ErrUnexpectedEOF,
+// so that a truncated frame (or the end of the stream) is never mistaken for a complete message.
+func exactReader(r io.Reader, n int64) io.Reader {
+	return &exactLengthReader{reader: r, remain: n}
+}
+
+type exactLengthReader struct {
+	reader io.Reader
+	remain int64
+}
+
+func (e *exactLengthReader) Read(p []byte) (n int, err error) {
+	if e.remain <= 0 {
+		return 0, io.EOF
+	}
+
+	if int64(len(p)) > e.remain {
+		p = p[:e.remain]
+	}
+
+	n, err = e.reader.Read(p)
+	e.remain -= int64(n)
+
+	if io.EOF == err && e.remain > 0 {
+		err = io.ErrUnexpectedEOF
+	}
+	return
+}
